@@ -17,6 +17,7 @@ import (
 	"testing"
 
 	"google.golang.org/grpc"
+	"google.golang.org/grpc/metadata"
 	"google.golang.org/protobuf/encoding/protowire"
 	"google.golang.org/protobuf/proto"
 	"pgregory.net/rapid"
@@ -32,6 +33,10 @@ type c07Case struct {
 	MaxRecv bool   `json:",omitempty"` // client side: the caller passes grpc.MaxCallRecvMsgSize(MaxInt32)
 	Chop    int    `json:",omitempty"` // the body is delivered at most Chop bytes per Read (0 = no limit)
 	Origin  string `json:",omitempty"` // how the body was produced (for the histogram)
+	// side server-early-header: NFrames frames with payloads of FrameSize bytes, through a real server of form Carrier
+	NFrames   int    `json:",omitempty"`
+	FrameSize int    `json:",omitempty"`
+	Carrier   string `json:",omitempty"`
 }
 
 // endReader yields b and then err (io.EOF or io.ErrUnexpectedEOF).
@@ -226,9 +231,82 @@ func propC07Unary(c c07Case) *Outcome {
 	return o
 }
 
+// propC07EarlyHeader: a real net/http server, a request stream well beyond what net/http is prepared to skip of an
+// unread request (256 KiB), and a handler that sends its response headers before it starts receiving: the decoder
+// still yields the frames that were encoded, from the first one on, or reports an error.
+func propC07EarlyHeader(c c07Case) *Outcome {
+	o := &Outcome{NonTrivial: true}
+	o.class("side=%s", c.Side)
+	var msgs []proto.Message
+	var want [][]byte
+	for i := 0; i < c.NFrames; i++ {
+		m := &pb.Message{Payload: []byte(fmt.Sprintf("%0*d", c.FrameSize, i))}
+		msgs = append(msgs, m)
+		want = append(want, detBytes(m))
+	}
+	body := encodeStream(msgs, nil)
+	var mu sync.Mutex
+	var got [][]byte
+	var final error
+	svc := &Service{Stream: func(kind string, stream grpc.ServerStream) error {
+		stream.SendHeader(metadata.Pairs("zz-early", "1"))
+		for {
+			m := new(pb.Message)
+			err := stream.RecvMsg(m)
+			mu.Lock()
+			if err != nil {
+				final = err
+				mu.Unlock()
+				return nil
+			}
+			got = append(got, detBytes(m))
+			mu.Unlock()
+		}
+	}}
+	srv := httptest.NewServer(newHTTPHandlerBase(c.Carrier, "", newServiceDesc(), svc))
+	defer srv.Close()
+	var rerr error
+	status := 0
+	stall := guard("request", func() {
+		// length not announced (chunked), as the library's own client sends its streams
+		req, _ := http.NewRequest("POST", srv.URL+mClientStream, io.MultiReader(bytes.NewReader(body)))
+		req.Header.Set("Content-Type", httpgrpc.StreamRpcContentType_V1)
+		resp, err := srv.Client().Do(req)
+		if err != nil {
+			rerr = err
+			return
+		}
+		status = resp.StatusCode
+		io.Copy(io.Discard, resp.Body)
+		resp.Body.Close()
+	})
+	if stall != "" {
+		return o.failf("server-early-header: %s", stall)
+	}
+	srv.Close()
+	mu.Lock()
+	defer mu.Unlock()
+	o.Observed = map[string]interface{}{"frames": c.NFrames, "body_bytes": len(body), "delivered": len(got), "final": errStr(final), "http": status, "client_err": errStr(rerr)}
+	if len(got) > len(want) {
+		return o.failf("server-early-header (%s): %d messages delivered, %d were encoded", c.Carrier, len(got), len(want))
+	}
+	for i := range got {
+		if string(got[i]) != string(want[i]) {
+			return o.failf("server-early-header (%s): %d frames of %d bytes in one request of %d bytes, handler sent its headers before receiving: message %d handed to the handler is %q, frame %d holds %q", c.Carrier, c.NFrames, c.FrameSize+6, len(body), i, got[i], i, want[i])
+		}
+	}
+	if final == io.EOF && len(got) != len(want) {
+		return o.failf("server-early-header (%s): clean end of stream reported after %d of %d messages", c.Carrier, len(got), len(want))
+	}
+	return o
+}
+
 func propC07(c c07Case) *Outcome {
 	if c.Side == "client-unary" {
 		return propC07Unary(c)
+	}
+	if c.Side == "server-early-header" {
+		return propC07EarlyHeader(c)
 	}
 	o := &Outcome{}
 	o.class("side=%s", c.Side)
@@ -414,6 +492,17 @@ func genC07Body(t *rapid.T, forServer bool, single ...bool) ([]byte, string) {
 
 func genC07(t *rapid.T) c07Case {
 	c := c07Case{Side: rapid.SampledFrom([]string{"client-ss", "client-ss", "client-cs", "server", "server", "server-ss", "client-unary"}).Draw(t, "side"), Abrupt: rapid.IntRange(0, 3).Draw(t, "abrupt") == 0}
+	if rapid.IntRange(0, 599).Draw(t, "earlyheader") == 0 {
+		// (a handful per run: each is a request of 0.3 .. 1 MiB through a real server)
+		c = c07Case{Side: "server-early-header", Carrier: rapid.SampledFrom([]string{cHTTP, cHTTPMux, cHTTPPer}).Draw(t, "ehcarrier")}
+		// (frames of 13, 37, 65 and 109 bytes divide 256 KiB + 1, the amount net/http skips at most)
+		c.FrameSize = rapid.SampledFrom([]int{7, 7, 31, 59, 103, 1, 100}).Draw(t, "ehsize")
+		c.NFrames = (300<<10)/(c.FrameSize+6) + rapid.IntRange(1, 40000).Draw(t, "ehmore")
+		if c.NFrames*(c.FrameSize+6) > 1<<20 {
+			c.NFrames = (1 << 20) / (c.FrameSize + 6)
+		}
+		return c
+	}
 	if c.Side == "client-unary" {
 		c.Chop = rapid.SampledFrom([]int{0, 0, 0, 1, 2, 3, 5, 7}).Draw(t, "chop")
 		full := mustMarshal(genMsg(t, "umsg", 600).Build())
@@ -500,7 +589,7 @@ func recordReplyBody(s *Script) []byte {
 
 func init() { registerReplay("C07", propC07) }
 
-const c07Rule = "bodies fed to the client stream decoder (server-streaming and single-response) and to the unary client (whole body = the message; cut at a field boundary or anywhere, ending with the transport's io.ErrUnexpectedEOF or cleanly) through a replaying RoundTripper and to the server stream decoder through httptest (a bidi method and a method that takes exactly one request): rapid byte strings, hostile 4-byte prefixes (0, -1, MinInt32, MaxInt32, limit, limit+-1), valid encodings of generated message lists + trailer mutated by truncation / bit flip / spliced hostile prefix / trailing garbage / missing trailer, " +
+const c07Rule = "bodies fed to the client stream decoder (server-streaming and single-response) and to the unary client (whole body = the message; cut at a field boundary or anywhere, ending with the transport's io.ErrUnexpectedEOF or cleanly) through a replaying RoundTripper, request streams of 0.3 .. 1 MiB through a real net/http server to a handler that sends its headers before it receives and to the server stream decoder through httptest (a bidi method and a method that takes exactly one request): rapid byte strings, hostile 4-byte prefixes (0, -1, MinInt32, MaxInt32, limit, limit+-1), valid encodings of generated message lists + trailer mutated by truncation / bit flip / spliced hostile prefix / trailing garbage / missing trailer, " +
 	"and every truncation offset of 8 recorded real replies, each ending cleanly (io.EOF) and abruptly (io.ErrUnexpectedEOF), delivered whole or at most 1..7 bytes per Read; oracle = independent reference decoder (delivered messages are an intact prefix of the reference frames; success iff the reference sees a complete OK reply; reference error => SUT error), no panic, TotalAlloc delta <= 100 MiB limit + 8*len(body) + 6 MiB; " +
 	"non-trivial = body with >=1 complete frame that is not a complete valid OK stream, or an oversized prefix, or a cut inside a frame; distinct by case hash"
 
@@ -528,15 +617,20 @@ func c07FuzzSeeds(f *testing.F) {
 	f.Add(ok[:len(ok)-1], byte(1))
 	f.Add(encodeStream([]proto.Message{m1}, nil), byte(0))
 	f.Add(encodeStream(nil, &httpgrpc.HttpTrailer{Code: 5, Message: "nf"}), byte(2))
+	f.Add(mustMarshal(m1), byte(32))
+	f.Add(mustMarshal(m1)[:5], byte(33))
 }
 
-// FuzzClientBody: coverage-guided search over reply bodies (flags: bit0 abrupt, bit1 single-response).
+// FuzzClientBody: coverage-guided search over reply bodies (flags: bit0 abrupt, bit1 single-response, bit5 unary reply).
 func FuzzClientBody(f *testing.F) {
 	c07FuzzSeeds(f)
 	f.Fuzz(func(t *testing.T, body []byte, flags byte) {
 		c := c07Case{Side: "client-ss", Body: body, Abrupt: flags&1 != 0, Chop: int(flags>>2) & 7, Origin: "native-fuzz"}
 		if flags&2 != 0 {
 			c.Side = "client-cs"
+		}
+		if flags&32 != 0 {
+			c.Side = "client-unary"
 		}
 		if o := propC07(c); o.Fail != "" {
 			t.Fatalf("C07: %s", o.Fail)
